@@ -12,7 +12,7 @@ from .c04 import LOGIC
 from .c05 import IDF, UNOPS
 
 # operand: (static-type tag, canonical value, how it is written)
-VALS = [("i", "I:5"), ("i", "I:0"), ("i", "N:i0"), ("d", "D:4004000000000000"), ("d", "N:d0"), ("b", "B:1"), ("b", "N:b0"),
+VALS = [("i", "I:5"), ("i", "I:0"), ("i", "I:-3"), ("i", "N:i0"), ("d", "D:4004000000000000"), ("d", "N:d0"), ("b", "B:1"), ("b", "N:b0"),
         ("s", "S:6162"), ("s", "N:s0"), ("r", "R:6162"), ("r", "N:r0"), ("n", "N:?0"),
         ("ti", "Ti1[I:1,I:2]"), ("ts", "Ts1[S:61]"), ("tti", "Ti2[Ti1[I:1]]"), ("u", "Uu0{i0,s0}(I:1,S:61)"), ("nt", "N:i1")]
 BUILTINS = ["abs", "sign", "floor", "ceil", "round", "sqrt", "int", "num", "str", "bool", "isnull", "isnum", "strlen", "upper", "lower",
@@ -97,6 +97,20 @@ class C02(ProgCheck):
             src = c.meta["src"]
             cases.append(Case("c%d" % n, c.model_line, "|".join(["new 0", "step 0 " + hx(src), "out 0", "dump 0"]),
                               {"family": "stepwise", "src": src, "ast": prog}))
+        # (b') a variable re-typed more than once inside a unit that is compiled but not executed: the symbol must be back to
+        # its previous type for the next unit (statement-at-a-time), as it is for the whole program
+        lits = {"i": "1", "d": "2.5", "s": '"s"', "b": "true"}
+        uses = {"i": "(v & 3)", "d": "(v / 2.0)", "s": "upper(v)", "b": "(v and true)"}
+        for t0 in "idsb":
+            for t1 in "idsb":
+                for t2 in "idsb":
+                    for guard in ("if false then", "for k in 2 to 1 asc loop", "while false loop"):
+                        endk = {"if false then": "end if;", "for k in 2 to 1 asc loop": "end loop;", "while false loop": "end loop;"}[guard]
+                        src = "v = %s;\n%s v = %s; v = %s; v = %s; %s\nr = %s;\n" % (lits[t0], guard, lits[t1], lits[t2], lits[t0], endk, uses[t0])
+                        for mode in ("prog", "step"):
+                            n += 1
+                            cases.append(Case("c%d" % n, "", "|".join(["new 0", "%s 0 %s" % (mode, hx(src)), "dump 0"]),
+                                              {"family": "retype", "src": src, "mode": mode}))
         # (c) safety-qualified variables and iterators keep their major type
         for (t1, v1), (t2, v2) in itertools.product(VALS[:12], VALS[:12]):
             n += 1
@@ -121,6 +135,14 @@ class C02(ProgCheck):
                 return
             return self.record_violation("crash: %s" % (c.meta.get("expr") or c.meta.get("src")), c, iraw, m, stderr)
         parts = iraw.split("|")
+        if fam == "retype":
+            self.distinct.add((fam, c.meta["src"], c.meta["mode"]))
+            prog = parts[-2]
+            self.tally(c, prog, m)
+            if prog != "ok-":
+                return self.record_violation("a program whose non-executed unit re-types a variable is not accepted/executed %s: %s" % (
+                    "as one unit" if c.meta["mode"] == "prog" else "statement by statement", prog), c, prog, m)
+            return
         if fam in ("safety", "iterator"):
             self.distinct.add((fam, c.meta["safety"]))
             prog, dump = parts[-2], parts[-1]
@@ -191,4 +213,12 @@ class C02(ProgCheck):
             return self.record_violation("`%s` evaluates to %s, the model gives %s" % (c.meta["expr"], got, mout), c, got, m)
 
     def crash_kf(self, c, iraw, stderr):
-        return None
+        """a crash is C01's concern: tolerated here only where C01 lists it as a known finding (same construct, same crash class)"""
+        from ..core import load_findings
+        from .c01 import crash_class
+        ml = (c.model_line or "").split()
+        if len(ml) < 2:
+            return None
+        fam = {"bity": "bi", "op": "op", "un": "un"}.get(ml[0])
+        kf = "C01.%s.%s.%s" % (fam, ml[1], crash_class(iraw))
+        return kf if any(f["id"] == kf and f.get("status", "known") == "known" for f in load_findings()) else None
